@@ -358,6 +358,10 @@ func prepToken(text string) string {
 
 // escapeString correctly escapes a snippet for printing.
 func escapeString(token string) string {
+	// an empty token has to be quoted to be a token at all
+	if token == "" {
+		return `""`
+	}
 	// check if token contains characters that need to be escaped
 	if strings.ContainsAny(token, "()\"\\\t\r\n ") {
 		// put the token in parenthesis and only escape \ and "
